@@ -17,6 +17,13 @@ def candles(n, seed=0, kind='random'):
             c = p
         elif kind == 'spikes':
             c = p * (1 + (0.05 if i % 17 == 3 else rng.uniform(-0.002, 0.002)))
+        elif kind == 'zerovol':
+            c = p * (1 + rng.uniform(-0.01, 0.01))
+            if i % 11 in (4, 7):
+                # a minute without reported volume (flat for i % 11 == 4, with an asymmetric range for i % 11 == 7)
+                w = 0.0 if i % 11 == 4 else 0.001
+                rows.append([TS0 + i * 60000, p, p, p * (1 + 2 * w), p * (1 - w), 0.0])
+                continue
         elif kind == 'ties':
             # coarse tick size and flat stretches: consecutive bars with exactly equal prices
             c = p if i % 5 in (1, 2) else round(p * (1 + rng.uniform(-0.01, 0.01)))
@@ -59,6 +66,12 @@ def close_enough(a, b, tol=1e-7):
     na, nb = np.isnan(a), np.isnan(b)
     if not np.array_equal(na, nb):
         return False
+    a, b = a[~na], b[~nb]
+    ia, ib = np.isinf(a), np.isinf(b)
+    if not np.array_equal(ia, ib) or not np.array_equal(np.sign(a[ia]), np.sign(b[ib])):
+        return False
+    a, b = a[~ia], b[~ib]
+    na = nb = np.zeros(a.shape, dtype=bool)
     with np.errstate(all='ignore'):
         d = np.abs(a[~na] - b[~nb])
         return bool(np.all(d <= tol * np.maximum(1.0, np.maximum(np.abs(a[~na]), np.abs(b[~nb])))))
@@ -100,4 +113,48 @@ def prefix_check(name, ns=(64, 300), ks=(57, 61, 250, 123), seeds=(0, 1), kinds=
 def long_prefix_check(name):
     """bounded native stand-in of C13 beyond the symbolic bound: long inputs (float underflow / overflow in closed forms) and
     series with exact ties"""
-    return prefix_check(name, ns=(400, 1600), ks=(61, 333, 1200), seeds=(2,), kinds=('random', 'ties'))
+    d = prefix_check(name, ns=(400, 1600), ks=(61, 333, 1200), seeds=(2,), kinds=('random', 'ties'))
+    if d:
+        return d
+    # minutes without reported volume (a flat one and one with a range): fall-backs for a zero divisor must not look at the whole input
+    return prefix_check(name, ns=(96,), ks=(61, 77, 90), seeds=(5,), kinds=('zerovol',))
+
+
+def lost_proof_check(name):
+    """bounded native stand-in used when the unbounded causality proof of an indicator is lost: long and tied series, series with
+    zero-volume flat minutes, and every prefix length from 1 to 63 (a process crash of a numba kernel on a tiny input is not a verdict)"""
+    d = long_prefix_check(name)
+    if d:
+        return d
+    return in_child(lambda: prefix_check(name, ns=(64,), ks=tuple(range(1, 64)), seeds=(3,), kinds=('random',)))
+
+
+def in_child(fn, *args):
+    """runs fn in a forked child: several numba kernels write out of bounds on inputs shorter than their period (no bounds checks),
+    which can kill the process - a crash is no verdict and must not take the other probes with it"""
+    import os
+    import pickle
+    r, w = os.pipe()
+    pid = os.fork()
+    if pid == 0:
+        try:
+            os.close(r)
+            out = fn(*args)
+            os.write(w, pickle.dumps(out))
+        finally:
+            os._exit(0)
+    os.close(w)
+    data = b''
+    while True:
+        chunk = os.read(r, 65536)
+        if not chunk:
+            break
+        data += chunk
+    os.close(r)
+    os.waitpid(pid, 0)
+    try:
+        return pickle.loads(data) if data else None
+    except Exception:
+        return None
+
+
